@@ -1846,6 +1846,31 @@ def str_replace(m, a, ci):
     return out
 
 
+@reg('mem::take', 'std::mem::take', 'core::mem::take')
+def mem_take(m, a, ci):
+    """returns the value behind the &mut and leaves Default::default() there (bool / integers / strings / vectors)"""
+    old = m.load(a[0])
+    if isinstance(old, bool) or z3.is_bool(old):
+        dflt = False
+    elif isinstance(old, int) or z3.is_bv(old):
+        dflt = 0
+    elif isinstance(old, Str):
+        dflt = Str(())
+    elif isinstance(old, Vec):
+        dflt = Vec((), old.kind)
+    else:
+        raise EncoderGap('mem::take of %r' % (old,))
+    m.store(a[0], dflt)
+    return old
+
+
+@reg('mem::replace', 'std::mem::replace', 'core::mem::replace')
+def mem_replace(m, a, ci):
+    old = m.load(a[0])
+    m.store(a[0], a[1])
+    return old
+
+
 @reg('ptr::eq', 'std::ptr::eq', 'core::ptr::eq')
 def ptr_eq(m, a, ci):
     """address identity of two references: same model object (syntax nodes carry a unique id)"""
